@@ -1214,6 +1214,36 @@ fn miri_case(prop: &str, scenario: &str, seed: u64, run: u64, max_ops: usize, fo
             Op::Burst { n, .. } | Op::SearchBurst { n, .. } | Op::JBurst { n, .. } => *n = (*n).min(3),
             _ => {}
         }
+        // ... and a comparison of two 1 300-character words for hours: words are cut to 80 characters
+        let cut = |s: &mut String| {
+            if s.chars().count() > 80 {
+                *s = s.chars().take(80).collect();
+            }
+        };
+        match o {
+            Op::Dist { a, ca, b, cb, .. } | Op::Burst { a, ca, b, cb, .. } => {
+                let (fa, fb) = (ca.ends_with('~'), cb.ends_with('~'));
+                cut(a);
+                cut(b);
+                *ca = ca.trim_end_matches('~').chars().take(80).collect();
+                *cb = cb.trim_end_matches('~').chars().take(80).collect();
+                if fa {
+                    ca.push('~');
+                }
+                if fb {
+                    cb.push('~');
+                }
+            }
+            Op::Jacc { a, b, .. } => {
+                cut(a);
+                cut(b);
+            }
+            Op::WMatch { r, q, .. } | Op::JCheck { r, q, .. } | Op::JBurst { r, q, .. } => {
+                cut(r);
+                cut(q);
+            }
+            _ => {}
+        }
     }
     if force_none {
         for o in ops.iter_mut() {
